@@ -81,7 +81,7 @@ let vs_handle (toks : string list) : string =
   | t :: r ->
       let (root, _) = parse_one t r in
       let ok = if ok_root true root then "1" else "0" in
-      match impl_run globals root with
+      match impl_run reset_variant globals root with
       | None -> ok ^ " EXC"
       | Some obs ->
           ok ^ " " ^ String.concat " " (List.map (fun (nm, v) ->
